@@ -9,6 +9,17 @@ HERE = os.path.dirname(os.path.dirname(os.path.abspath(__file__)))
 sys.path.insert(0, HERE)
 
 CLAIMED = {
+    'C06': dict(
+        category='other',
+        text='Decides the "nothing from an earlier call" clause and the wiring: every call stores its own '
+             'filename/argv/envp before the log action (dominance + parameter-origin tracing through the helper), ctor '
+             'and dtor reset every field of the input record to empty constants on every path and init/cleanup run '
+             'them, no registered data source (nor anything it reaches) writes static storage, cmdline tests argv and '
+             'argv[0] for NULL before use and the guarded outcome returns the stored path. Both build variants.',
+        design_ref='DESIGN.md §5 C06',
+        note='Not decided: the byte-level result of the join (single spaces, prefix on truncation).',
+        technique='static analysis: dominance/must-call summaries + struct-field agreement + static-write enumeration + '
+                  'nullable-source dataflow'),
     'C07': dict(
         category='other',
         text='Conjunction structure of check_chain by branch-polarity analysis on all paths (DROP is returned only '
